@@ -32,6 +32,7 @@ class Compiler:
         self.times_file_compiled = collections.defaultdict(int)
         self.internal_prefix_to_state = {}
         self.unfinished_internal_prefixes = set()
+        self.include_depth = 0
 
 
     def compile_file(self, file, start, link_base):
